@@ -354,6 +354,76 @@ def run(ctx):
                     if bad or not any("*mut libc::c_void" == c for c in caps):
                         r.violate(key, f"{f.key}: a handler closure captures {[c[:70] for c in (bad or caps)]} instead of the callback and a copy of the user_data pointer: once the builder (or the handlers object) is freed, which the header permits before the rewriter runs, the handler reads freed memory", f.loc())
 
+    # ------------------------------------------------------------------ R17.10
+    rule_named_plumbing(ctx, capi)
+
     ctx.not_decided += ["byte-for-byte equality of C-driven and Rust-driven runs (a run-time relation)", "allocator hygiene over all create/use/free histories (sanitizer territory)"]
     return ("Wrapper discipline of the C API: %d header prototypes compared with the exported extern \"C\" signatures (arity and type class) and the repr(C) struct "
             "layouts, namesake routing of %d accessor/mutator wrappers, catch_panic containment, Err-edge to save_last_error reachability, and ownership pairing." % (len(hdr["funcs"]), len(ext)))
+
+
+def _arg_name(f, op):
+    """name of the caller's parameter / captured variable an operand is a plain copy of, else None"""
+    d = f.deep(op)
+    m = re.match(r"^(?:arg\d+\.)?\(?\*?(?:arg\d+\.)?([a-z_][a-z0-9_]*)\)?$", d)
+    return m.group(1) if m and not re.match(r"arg\d+$", m.group(1)) else None
+
+
+def rule_named_plumbing(ctx, capi, rid="R17.10"):
+    r = ctx.rule(rid, "arguments reach the parameter they are named after: where a C-API function hands one of its own named parameters (or a closure capture of it) to another C-API function or to a Settings::with_<name> builder, it is passed in the position of the like-named parameter; the ESI variant differs from lol_html_rewriter_build only in the constant it passes for enable_esi_tags", "E-MIR operand provenance vs callee debug names", floor=10)
+    bodies = {}
+    for f in capi.fns:
+        if not capi.is_test_fn(f):
+            bodies.setdefault(f.key.split("::")[-1], []).append(f)
+    n_sites = 0
+    for f in capi.fns:
+        if capi.is_test_fn(f):
+            continue
+        own = set(filter(None, (f.name_of(i) for i in range(1, f.rec["arg_count"] + 1))))
+        for bi, t in f.calls(r"."):
+            ck = callee_key(t)
+            last = ck.split("::")[-1].split("(")[0]
+            names = [_arg_name(f, a) for a in t["args"]]
+            if not any(names):
+                continue
+            cal = bodies.get(last, [])
+            if len(cal) == 1 and "{closure" not in last and cal[0].rec["arg_count"] == len(t["args"]):
+                g = cal[0]
+                pn = [g.name_of(i) for i in range(1, g.rec["arg_count"] + 1)]
+                pt = [g.rec["locals"][i] for i in range(1, g.rec["arg_count"] + 1)]
+                for i, nm in enumerate(names):
+                    if nm is None or nm not in pn or pn[i] == nm:
+                        if nm is not None and pn[i] == nm:
+                            n_sites += 1
+                            r.inst(f"{f.key}|{last}|{nm}", nontrivial=False)
+                        continue
+                    j = pn.index(nm)
+                    key = f"{f.key}|{last}|{nm}"
+                    r.inst(key, sample={"argument": nm, "position": i, "callee_parameters": pn})
+                    if pt[i] == pt[j]:
+                        r.violate(key, f"{f.key} passes its `{nm}` to {last} in the position of the parameter `{pn[i]}` (same type {pt[i]}); the parameter `{nm}` is at position {j}: the two values are swapped on their way through the C API", f.loc())
+            m = re.search(r"Settings(?:<[^>]*>)?::with_(\w+)$", ck.split("(")[0])
+            if m and len(t["args"]) == 2:
+                want = m.group(1)
+                nm = names[1]
+                if nm is not None and (want in own or nm in own) and (want in own):
+                    key = f"{f.key}|with_{want}"
+                    r.inst(key, sample={"argument": nm})
+                    if nm != want:
+                        r.violate(key, f"{f.key} configures Settings::with_{want} from its parameter `{nm}` although it has a parameter `{want}`", f.loc())
+    # the two public constructors differ only in the ESI constant
+    consts = {}
+    for f in capi.fns:
+        for bi, t in f.calls(r"lol_html_rewriter_build_inner$"):
+            g = bodies.get("lol_html_rewriter_build_inner", [None])[0]
+            if g is None:
+                continue
+            pn = [g.name_of(i) for i in range(1, g.rec["arg_count"] + 1)]
+            if "enable_esi_tags" in pn and len(t["args"]) == len(pn):
+                consts[f.key.split("::")[1] if "::" in f.key else f.key] = f.deep(t["args"][pn.index("enable_esi_tags")])
+    r.inst("build_inner|esi-constant", sample=consts)
+    want_c = {"lol_html_rewriter_build": "const false: bool", "unstable_lol_html_rewriter_build_with_esi_tags": "const true: bool"}
+    if consts != want_c:
+        r.violate("build_inner|esi-constant", f"the constructors pass {consts} for enable_esi_tags, expected {want_c}", "c-api/src/rewriter.rs")
+    r.count("named_arguments_in_place", n_sites)
+
